@@ -62,7 +62,7 @@ func runNorm(m *model.Model, s *ob.Set) {
 	dnorm := m.Lookup("dnorm")
 	finite, _ := constant.Int64Val(m.PkgConst("finite"))
 	tabled := map[string]string{
-		"newDecimal":            "pre-allocates a buffer on a zero-valued Decimal (form stays zero)",
+		"newDecimal":           "pre-allocates a buffer on a zero-valued Decimal (form stays zero)",
 		"(*Decimal).GobDecode": "the decoded mantissa is validated instead (rule GOB G2: non-empty, normalised, words < base, digits <= precision)",
 	}
 	const (
